@@ -32,6 +32,9 @@ KINDS = {
     "D2": ["q", "q", "f"],  # diagonal, asymmetric in its qubits (controlled-phase style)
     "D3": ["q", "q", "q"],  # diagonal 3-qubit gate with generic phases
     "CX": ["q", "q"],  # permutation matrix (control = first argument)
+    "INC2": ["q", "q"],  # permutation that is NOT its own inverse: |x> -> |x+1 mod 4>
+    "PM3": ["q", "q", "q"],  # seed-dependent 3-qubit permutation matrix (not an involution)
+    "MP2": ["q", "q", "f"],  # monomial: a 4-cycle permutation times angle-dependent phases
     "NoU": ["q"],
 }
 
@@ -61,6 +64,32 @@ def unitary_fn(seed, name, kinds):
         # bit 0 = first argument = control, bit 1 = target
         cx = np.array([[1, 0, 0, 0], [0, 0, 0, 1], [0, 0, 1, 0], [0, 1, 0, 0]], dtype=complex)
         return lambda: cx
+    if name == "INC2":
+        inc = np.zeros((4, 4), dtype=complex)
+        for x in range(4):
+            inc[(x + 1) % 4, x] = 1
+        return lambda: inc
+    if name == "PM3":
+        r = np.random.default_rng(_name_seed(seed, name))
+        while True:
+            perm = r.permutation(8)
+            if any(perm[perm[x]] != x for x in range(8)):
+                break
+        pm = np.zeros((8, 8), dtype=complex)
+        for x in range(8):
+            pm[perm[x], x] = 1
+        return lambda: pm
+    if name == "MP2":
+        lam = np.random.default_rng(_name_seed(seed, name)).uniform(-2, 2, size=4)
+        cyc = [2, 0, 3, 1]  # a 4-cycle: x -> cyc[x]
+
+        def mp(t):
+            m = np.zeros((4, 4), dtype=complex)
+            for x in range(4):
+                m[cyc[x], x] = np.exp(-1j * float(t) * lam[x])
+            return m
+
+        return mp
     if name == "D3":
         ph = np.random.default_rng(_name_seed(seed, name)).uniform(-3, 3, size=8)
         d3 = np.diag(np.exp(-1j * ph))
